@@ -353,6 +353,11 @@ def check(ctx):
                           "status %s %s; changed: %s; left bound: %s" % (r["status"], r["escaped"] or r["err"].strip()[:60],
                                                                        [v_ for v_ in nm if after[v_] != before[v_]], stray),
                           "one EvalEnvironment: the assignments, then execute(%r), then read the variables" % text)
+    # nested comprehensions re-using names (lexical scoping, sources evaluated in the enclosing scope, conditions per position),
+    # against a reference interpreter; and: no aggregate / comprehension changes an array a variable is bound to
+    import nested_common, alias_common
+    nested_common.run(ctx, ctx.n(600, 8000), "nested")
+    alias_common.run(ctx, "alias")
     # a generator whose value is not an array
     for text in ("{x : x in 5}", "{x : x in 1..3, y in 2}", "{1 : 2 > 1}"):
         k, v = R.value(text)
